@@ -35,7 +35,11 @@ EXTRA_TRUSTED = [
     "C17_fit_stream / C17_fit_schedule = the C17 theorems composed with the C12 model of fit (tied to the code by the C12 check and by the "
     "fit-stream oracle here)",
     "C17: file_name has the form pre+'{}'+post; obs_name+'_'+stat_name is injective on the pairs that occur; "
-    "torch.save/torch.load round-trip (C11); verbose printing and pre-existing log-file content are not modelled",
+    "torch.save/torch.load round-trip (C11); verbose printing is not modelled; a log file that already exists is the theorems' arbitrary list of old rows "
+    "(executed by the appended-log cases, oracle on the implementation only)",
+    "C17: every scripted value (metric values, System.statistics results, messages, metadata, parameter snapshots) is a function of the world token the "
+    "harness Recorder - placed FIRST in the callback list - sets for the event being dispatched; that callbacks are dispatched in list order is C12's "
+    "property, not re-checked here",
 ]
 RULE = ("case = (state kind, seed, callback list [two metric evaluators with different periods, observable evaluator, "
         "model saver, logger; periods 1..7, log on/off, verbose on/off, metadata callable/dict/none, metadata_only, save_initial True/False/default], "
@@ -48,7 +52,14 @@ RULE = ("case = (state kind, seed, callback list [two metric evaluators with dif
         "ARGUMENT FORMS (seeds `fseed` / `iseed` of the case): every integer option of every public call (period of all four callbacks, num_samples / "
         "num_chains / burn_in / steps, get_value's index, fit's epochs / pos_batch_size / neg_batch_size / k / starting_epoch) is handed over as a Python int, "
         "numpy integer scalar, 0-d numpy array or 0-d torch tensor, every boolean option (verbose, save_initial, metadata_only, time, progbar) as the bool "
-        "singleton, int, numpy bool, 0-d array or 0-d tensor, by keyword and positionally (constructors, get_value, fit); the model is told the VALUES")
+        "singleton, int, numpy bool, 0-d array or 0-d tensor, by keyword and positionally (constructors, get_value, fit); the model is told the VALUES; "
+        "NOT COMPARED, only counted (outside the property text / quantifier): period < 1, a metric called 'epoch' with a log file, a reserved metadata key "
+        "(refused or not, when, with which exception), exception TYPES of lookups (untracked name, index outside -n..n-1, unknown statistic: only "
+        "raises-or-not; an untracked name on an EMPTY history: nothing), the TEXT of the default Logger message (property level = how many messages and "
+        "during which epoch-end events), the on-disk layout of saved files (verdict = a fresh state `load`s the file through the library and has the "
+        "recorder's parameters of that epoch; every requested metadata entry is stored under its key); "
+        "APPENDED LOGS: four fixed cases with a log file that already exists (pre-filled by hand, a second evaluator given the path of an earlier one): "
+        "the rows after the evaluator's own header == one row per evaluation")
 
 STAT_QUERIES = ["mean", "means", "variance", "variances", "std_error", "std_errors", "num_samples", "num_sample", "foo", "s",
                 "", "ss", "data", "datas", "bias", "bia", "biass", "meanss", "__class__", "__dict__", "__getitem__"]
